@@ -347,7 +347,9 @@ def fit_scipy(
         ndf = s.x.shape[0]
         min_nll = s.fun / grad_scale
         success = s.success
-        hess_inv = fcn.vm.trans_error_matrix(s.hess_inv * grad_scale, s.x)
+        hess_inv = getattr(s, "hess_inv", None)  # CG, Nelder-Mead: no hess_inv
+        if hess_inv is not None:
+            hess_inv = fcn.vm.trans_error_matrix(hess_inv * grad_scale, s.x)
         fcn.vm.remove_bound()
 
         xn = fcn.vm.get_all_val()
